@@ -607,9 +607,10 @@ def int_pow(a, b):
 # hmul(a, b) (arguments in a canonical order).  Sound for "valid" verdicts (what holds for every interpretation of hmul
 # holds for multiplication); a refutation on a path that used hmul is not trusted: the path is marked tainted, a candidate
 # from it is "soft" (reported only if the concrete replay against the real code confirms it, else counted undecided).
-# Integer terms: degree <= 2 (non-linear INTEGER arithmetic is where z3 ran away); real terms: degree <= 4.
+# Integer terms: degree <= 2 (non-linear INTEGER arithmetic is where z3 ran away); real terms (decided by nlsat, which
+# never ran away on the real-number model of C03/C12): degree <= 16.
 
-DEG_CAP = {"Int": 2, "Real": 4}
+DEG_CAP = {"Int": 2, "Real": 16}
 _DEG = {}
 ABSTRACTED = {"count": 0}
 
@@ -674,8 +675,14 @@ def _factors(t, atoms, coeff):
         from fractions import Fraction
         coeff[0] = coeff[0] * Fraction(t.numerator_as_long(), t.denominator_as_long())
         return
+    if z3.is_app(t) and t.decl().kind() == z3.Z3_OP_TO_REAL and z3.is_int_value(t.arg(0)):
+        coeff[0] = coeff[0] * t.arg(0).as_long()
+        return
     if z3.is_app(t):
-        if t.decl().kind() == z3.Z3_OP_MUL or t.decl().name() == "hmul":
+        h = t.decl().name() == "hmul"
+        if t.decl().kind() == z3.Z3_OP_MUL or h:
+            if h and len(coeff) > 1:
+                coeff[1] = True           # an abstracted product is among the factors
             for c in t.children():
                 _factors(c, atoms, coeff)
             return
@@ -689,12 +696,11 @@ def capped_mul(a, b):
     da, db = degree(a), degree(b)
     so = a.sort()
     cap = DEG_CAP["Int" if so == INT else "Real"]
-    abstracted = any(z3.is_app(x) and x.decl().name() == "hmul" for x in (a, b))
-    if not abstracted and (da == 0 or db == 0 or da + db <= cap):
-        return a * b
-    atoms, coeff = [], [1]
+    atoms, coeff = [], [1, False]
     _factors(a, atoms, coeff)
     _factors(b, atoms, coeff)
+    if not coeff[1] and (da == 0 or db == 0 or da + db <= cap):
+        return a * b
     if coeff[0] == 0:
         return z3.IntVal(0) if so == INT else z3.RealVal(0)
     if len(atoms) <= 1 or sum(degree(x) for x in atoms) <= cap:
